@@ -24,6 +24,40 @@ CHECKS = {
             'between library template and independent DFA',
             'Finite domain enumerated completely: 441 element bindings, 94 language equivalences decided on automata, '
             '1 9xx attribute pairs, all type/group/attribute-group classes and the loaded schema copy.', '3 C03'),
+    'C06': ('model-based invariant over generated operation histories (bounded-exhaustive <=3 ops + Hypothesis '
+            'adaptive histories)',
+            'After every op of every generated history both child views, parent links and (when it returns) the '
+            'serialised children are compared with a reference list updated by successful calls only.', '3 C06'),
+    'C07': ('add-only histories (exhaustive <=3 adds + Hypothesis, oracle-steered) judged by an independent '
+            'completability search on the DFA',
+            'Every accepted add is followed by an exact completability decision (exists an accepted word dominating '
+            'the held multiset) on the oracle DFA.', '3 C07'),
+    'C10': ('differential twin over generated failing histories (bounded-exhaustive + Hypothesis) with replay-based '
+            'acceptance probes',
+            'A history with failing ops is run against a twin that skips them; observations after every step and '
+            'per-symbol acceptance (by replay on fresh objects) must agree.', '3 C10'),
+    'C13': ('Hypothesis-drawn interleavings of 2-3 instance histories vs solo replays; pristine-subprocess behaviour '
+            'panel',
+            'Each instance\'s observation trace under a harness-owned interleaving must equal its solo trace; a fresh '
+            'instance of every type is fingerprinted after the campaign and compared with a brand-new process.',
+            '3 C13'),
+    'C14': ('Hypothesis-generated element trees with post-construction attribute/value edits; copy-vs-original '
+            'differential and mutation independence',
+            'deepcopy text and public dump equality, original unchanged, and independence under drawn mutations of '
+            'copy and original.', '3 C14'),
+    'C15': ('complete (class, child/attribute name) enumeration + Hypothesis intent sequences run through both API '
+            'surfaces (differential)',
+            'Every schema child and attribute name of every class is exercised through the dot surface against the '
+            'explicit call; generated mixed intent sequences are compared step by step.', '3 C15'),
+    'C16': ('Hypothesis strings over the XML Char range injected into every string position of generated trees; '
+            'round-trip through xml.etree, repeat-call and no-intermediate-serialisation twin',
+            'Exact recovery of every injected string and of the structure by an independent XML parser; repeated and '
+            'subtree serialisations compared; side-effect freedom by twin.', '3 C16'),
+    'C18': ('Hypothesis histories on unchecked parents with children from all 441 classes (model-based), '
+            'checked/unchecked byte-identity differential, lock-step twin for nested checked elements',
+            'No exception and insertion order on unchecked elements, byte identity with the checked twin on valid '
+            'words, and identical behaviour of a checked element whether or not its ancestors are unchecked.',
+            '3 C18'),
 }
 
 ALL = ['C%02d' % i for i in range(1, 21)]
